@@ -279,6 +279,7 @@ type vTuple []val
 type vErr struct{ kind, detail string } // reader-error | nil | named error | ternary
 type vMake struct{ size val }
 type vOpaque struct{ why string }
+type vMethodVal struct{ sel *ast.SelectorExpr }
 
 // vTerm is one component of the writer terminal call w.Bytes() / w.BytesWithLength() kept in a local.
 type vTerm struct {
@@ -289,10 +290,11 @@ type vTerm struct {
 // ---------------------------------------------------------------------------------------------
 
 type frame struct {
-	info *types.Info
-	pkg  *packages.Package
-	ret  val
-	done bool
+	info  *types.Info
+	pkg   *packages.Package
+	ret   val
+	done  bool
+	named []types.Object // named results of an inlined helper (a bare return answers their current values)
 }
 
 type Extractor struct {
@@ -976,6 +978,22 @@ func (w *walker) returnStmt(s *ast.ReturnStmt) {
 				t = append(t, w.eval(r))
 			}
 			fr.ret = t
+		} else if len(fr.named) == 1 {
+			if v, ok := w.env[fr.named[0]]; ok {
+				fr.ret = v
+			} else {
+				fr.ret = vConst{}
+			}
+		} else if len(fr.named) > 1 {
+			var t vTuple
+			for _, o := range fr.named {
+				if v, ok := w.env[o]; ok {
+					t = append(t, v)
+				} else {
+					t = append(t, vConst{})
+				}
+			}
+			fr.ret = t
 		} else {
 			fr.ret = vConst{}
 		}
@@ -1105,6 +1123,10 @@ func (w *walker) eval(e ast.Expr) val {
 		}
 		return vOpaque{"unary " + e.Op.String()}
 	case *ast.SelectorExpr:
+		if sel, ok := info.Selections[e]; ok && sel.Kind() == types.MethodVal {
+			// a method value (next := r.ReadUint32): calling it is calling the method on the receiver evaluated here
+			return vMethodVal{sel: e}
+		}
 		if sel, ok := info.Selections[e]; ok && sel.Kind() == types.FieldVal {
 			base := w.eval(e.X)
 			var p Path
@@ -1251,6 +1273,14 @@ func (w *walker) call(e *ast.CallExpr) val {
 			return v
 		}
 		return v
+	}
+	// a call through a method value bound earlier
+	if id, ok := e.Fun.(*ast.Ident); ok {
+		if obj := info.Uses[id]; obj != nil {
+			if mv, isMV := w.env[obj].(vMethodVal); isMV {
+				return w.call(&ast.CallExpr{Fun: mv.sel, Lparen: e.Lparen, Args: e.Args, Ellipsis: e.Ellipsis, Rparen: e.Rparen})
+			}
+		}
 	}
 	// builtins
 	if id, ok := e.Fun.(*ast.Ident); ok {
@@ -1692,6 +1722,15 @@ func (w *walker) inline(callee *types.Func, e *ast.CallExpr, recv val) val {
 		}
 	}
 	fr := &frame{info: pkg.TypesInfo, pkg: pkg}
+	if decl.Type.Results != nil {
+		for _, f := range decl.Type.Results.List {
+			for _, n := range f.Names {
+				if obj := pkg.TypesInfo.Defs[n]; obj != nil {
+					fr.named = append(fr.named, obj)
+				}
+			}
+		}
+	}
 	w.frames = append(w.frames, fr)
 	w.depth++
 	w.block(decl.Body.List)
